@@ -2,13 +2,16 @@
 # usage: try_mutant.sh <patch.diff> <property> [budget_s]
 # Applies the patch to a scratch worktree of /repo, runs the pinned tests and the
 # quick check of the property against that tree, removes the worktree again.
+# Works from /verif or from a snapshot of it (paths are relative to this script).
 set -u
+ROOT=$(cd "$(dirname "$0")/.." && pwd)
 PATCH=$(readlink -f "$1"); PROP=$2; BUD=${3:-20}
+[ -x "$ROOT/bin/simcheck" ] || (cd "$ROOT" && GOFLAGS=-mod=mod GOPROXY=off GOSUMDB=off GOTOOLCHAIN=local GOWORK=off go build -o bin/simcheck ./cmd/simcheck) || exit 2
 WT=$(mktemp -d /tmp/mut-XXXXXX)
 git -C /repo worktree add -q --detach "$WT" HEAD || exit 2
 trap 'git -C /repo worktree remove --force "$WT" >/dev/null 2>&1; rm -rf "$WT"' EXIT
 git -C "$WT" apply "$PATCH" || { echo "patch does not apply"; exit 2; }
-/verif/scripts/baseline.sh "$WT" | tail -3
-cd /verif && VERIF_REPO="$WT" VERIF_BUDGET_S=$BUD bin/simcheck run --property "$PROP" --tier quick | grep -v "^built" | cut -c1-700
+"$ROOT/scripts/baseline.sh" "$WT" | tail -3
+cd "$ROOT" && VERIF_HOME="$ROOT" VERIF_REPO="$WT" VERIF_BUDGET_S=$BUD bin/simcheck run --property "$PROP" --tier quick | grep -v "^built" | cut -c1-700
 echo "exit=${PIPESTATUS[0]}"
-git -C /verif checkout -q -- evidence 2>/dev/null
+git -C "$ROOT" checkout -q -- evidence 2>/dev/null
